@@ -1,8 +1,11 @@
 (* Properties/C03.v — GROUP BY partitions rows; aggregates cover exactly their group and honour
    WHERE (claims only; specification in Spec/GroupSpec.v, proofs in Proofs/C03Lemmas.v).
 
-   Scope of the grouping claims ([rows_ok cols rows]): every row is an object and the value of each
-   grouping column is NULL / missing, a boolean, a string or a non-NaN number.  The single fact about
+   A grouping column ([gkey]) is the name the group row carries it under and a path of key steps and index
+   steps (`g`, `owner.team`, `tags[0]`, `owner.tags[1]`), read off each row as ExecGroupBy reads it (section 1b).
+   Scope of the grouping claims ([rows_ok cols rows]): every row is an object, each grouping column has a value
+   in it ([path_value]: NULL below a NULL / missing step), and that value is NULL, a boolean, a string or a
+   non-NaN number.  The single fact about
    IEEE doubles they use is the premise [FloatEqLaws] (x == y is symmetric and transitive); it is
    discharged from the standard library's specification of the primitive in Proofs/C03FloatEq.v
    (see C03_float_laws_hold at the end).  [rec], [call], [join] are the interpreter's oracles
@@ -10,6 +13,7 @@
 From Coq Require Import Floats Permutation.
 From GenqlV Require Import Base.Prelude Base.Value Model.Ast Model.Eval Model.Exec
   Spec.GroupSpec Proofs.C03Lemmas Proofs.C03FloatEq.
+From GenqlV Require Model.SelToken Model.SelReader Proofs.C03PathReader.
 Local Open Scope list_scope.
 
 (* ================================================================== *)
@@ -94,13 +98,78 @@ Proof. exact group_spec_prefix_stable. Qed.
 Print Assumptions C03_order_is_prefix_stable.
 
 (* outside the scope: two rows whose first grouping column holds arrays (or objects) make Go's
-   interface comparison panic; exec()'s recover turns it into an error *)
+   interface comparison panic; exec()'s recover turns it into an error.  ([readable]: every grouping column
+   has a value in both rows — with path keys a column can fail to be read, which is the error of the next
+   theorem and not a panic; for flat columns [readable] always holds on objects, see C03_flat_columns_readable) *)
 Theorem C03_uncomparable_key_is_error : forall (E : env stmt) s c cs kv1 kv2 rest,
   s_group s = c :: cs ->
-  both_containers (column c (VObj kv1)) (column c (VObj kv2)) = true ->
+  readable (c :: cs) (VObj kv1) = true -> readable (c :: cs) (VObj kv2) = true ->
+  both_containers (key_value c (VObj kv1)) (key_value c (VObj kv2)) = true ->
   exec_group_by E s (VObj kv1 :: VObj kv2 :: rest) = Panic.
 Proof. exact exec_group_by_uncomparable. Qed.
 Print Assumptions C03_uncomparable_key_is_error.
+
+(* ================================================================== *)
+(* 1b. Grouping columns that are paths                                  *)
+(* ================================================================== *)
+
+(* A grouping column is a selector: key steps and index steps ([kstep]); the engine reads it off every row that
+   passed WHERE with ExecReader ([key_reader]).  All the claims of section 1 are about such columns: [key_of] /
+   [rows_ok] go through [path_value], the reading of a path written from the text of the property (a step below
+   NULL reads NULL, a key step reads the entry of an object or NULL when there is none, an index step reads the
+   element of an array that has it).  Three facts connect the two readings. *)
+
+(* a column that has a value is read to that value: NULL under a NULL / missing step, the entry otherwise *)
+Theorem C03_path_key_read : forall p v x, path_value p v = Some x -> key_reader p v = Ok x.
+Proof. exact key_reader_path_value. Qed.
+Print Assumptions C03_path_key_read.
+
+(* a column whose path runs through a scalar, meets an object at an index step, or indexes beyond the end of
+   the array ([path_stuck]) is not read at all *)
+Theorem C03_path_key_stuck : forall p v, path_stuck p v = true -> key_reader p v = Err.
+Proof. exact key_reader_stuck. Qed.
+Print Assumptions C03_path_key_stuck.
+
+(* and then there is NO partition: rows in scope ([good]), followed by a row [bad] for which one grouping column
+   [c] is stuck (the columns before it, [pre], have values) — the grouping stage fails, whatever follows; the row
+   is not placed in any group, in particular not among the rows whose key IS NULL.  (The rows are those that
+   passed WHERE: a row WHERE removes is never read.) *)
+Theorem C03_unreadable_key_is_refused : forall (E : env stmt) s good bad rest pre c post,
+  rows_ok (s_group s) good = true -> s_group s = pre ++ c :: post ->
+  readable pre bad = true -> path_stuck (gk_path c) bad = true ->
+  exec_group_by E s (good ++ bad :: rest) = Err.
+Proof. exact exec_group_by_stuck. Qed.
+Print Assumptions C03_unreadable_key_is_refused.
+
+(* flat columns are the special case read like a column reference, with the value [column]; key paths without
+   index steps are read like a column path *)
+Theorem C03_flat_column : forall c v,
+  key_reader (gk_path (gcol c)) v = reader [c] v /\ key_value (gcol c) v = column c v.
+Proof. intros c v. split; [apply key_reader_flat|apply key_value_gcol]. Qed.
+Print Assumptions C03_flat_column.
+
+Theorem C03_flat_columns_readable : forall cs kvs, readable (map gcol cs) (VObj kvs) = true.
+Proof. intros cs kvs. unfold readable. apply forallb_forall. intros c Hc. apply in_map_iff in Hc.
+  destruct Hc as (n & <- & _). reflexivity. Qed.
+Print Assumptions C03_flat_columns_readable.
+
+Theorem C03_key_path_as_column_path : forall ks v, key_reader (map KKey ks) v = reader ks v.
+Proof. exact key_reader_keys. Qed.
+Print Assumptions C03_key_path_as_column_path.
+
+(* the reading of a grouping column IS the selector model of C09 (Model/SelReader.v: selector.go Reader, SelectMany,
+   SelectDimension, Unwind) on the tokens the steps stand for: a key step is a KeySelector, [i] an index selector
+   with one dimension.  Hence ExecReader(row, text) = key_reader p row for every text that parses to those tokens
+   (Proofs/C03PathReader.v key_reader_is_exec_reader; key_texts_parse runs the parser model on the generated texts) *)
+Theorem C03_path_key_is_selector_read : forall p v,
+  key_reader p v = SelReader.reader (map C03PathReader.tok p) v.
+Proof. exact C03PathReader.key_reader_is_selector_reader. Qed.
+Print Assumptions C03_path_key_is_selector_read.
+
+Theorem C03_path_key_is_exec_reader : forall text p v,
+  SelToken.parse_all text = Ok [map C03PathReader.tok p] -> SelReader.exec_reader v text = key_reader p v.
+Proof. exact C03PathReader.key_reader_is_exec_reader. Qed.
+Print Assumptions C03_path_key_is_exec_reader.
 
 (* ================================================================== *)
 (* 2. Aggregates cover exactly the member rows they are given           *)
@@ -164,9 +233,11 @@ Theorem C03_group_row_star : forall g, lookup "*" (group_row g) = Some (VArr (sn
 Proof. exact lookup_star_group_row. Qed.
 Print Assumptions C03_group_row_star.
 
-Theorem C03_group_row_key_columns : forall cols (r : value) ms c,
-  In c cols -> c <> "*"%string ->
-  lookup c (group_row (key_of cols r, ms)) = Some (column c r).
+(* [names_unambiguous]: one name, one column (the code keeps the grouping columns in a map keyed by the name) *)
+Theorem C03_group_row_key_columns : forall cols (r : value) ms (c : gkey),
+  names_unambiguous cols ->
+  In c cols -> gk_name c <> "*"%string ->
+  lookup (gk_name c) (group_row (key_of cols r, ms)) = Some (key_value c r).
 Proof. exact lookup_key_group_row. Qed.
 Print Assumptions C03_group_row_key_columns.
 
@@ -370,7 +441,7 @@ Module Ex.
   Definition q : select stmt :=
     {| s_with := []; s_from := FTable ["t"] "";
        s_where := Some (ECmp OpGt (ECol ["b"]) (ENum 1));
-       s_group := ["g"; "h"];
+       s_group := [gcol "g"; gcol "h"];
        s_having := Some (ECmp OpGt (EAgg ACount None) (ENum 1));
        s_items := [IExpr (ECol ["g"]) "g"; IExpr (ECol ["h"]) "h"; IExpr (EAgg ACount None) "n";
                    IExpr (EAgg ASum (Some ["a"])) "sa"; IExpr (EAgg ASum (Some ["b"])) "sb";
@@ -394,9 +465,9 @@ End Ex.
 (* the table is in scope and groups as the specification says: 4 groups of 3, 2, 2 and 1 members;
    the row whose g is missing joins the group of the row whose g is null *)
 Example C03_nonvacuous_groups :
-  rows_ok ["g"; "h"]%string Ex.t8 = true /\
-  group_rows ["g"; "h"]%string Ex.t8 [] = Ok (group_spec ["g"; "h"]%string Ex.t8) /\
-  map (fun g => (fst g, List.length (snd g))) (group_spec ["g"; "h"]%string Ex.t8) =
+  rows_ok [gcol "g"; gcol "h"]%string Ex.t8 = true /\
+  group_rows [gcol "g"; gcol "h"]%string Ex.t8 [] = Ok (group_spec [gcol "g"; gcol "h"]%string Ex.t8) /\
+  map (fun g => (fst g, List.length (snd g))) (group_spec [gcol "g"; gcol "h"]%string Ex.t8) =
     [ ([("g", VStr "x"); ("h", VNum 1)], 3); ([("g", VStr "y"); ("h", VNum 1)], 2);
       ([("g", VNull); ("h", VNum 2)], 2); ([("g", VStr "x"); ("h", VNum 2)], 1) ]%string%nat.
 Proof. vm_compute. repeat split. Qed.
@@ -406,7 +477,7 @@ Proof. vm_compute. repeat split. Qed.
    SUM(a) <> SUM(b) *)
 Example C03_nonvacuous_query :
   where_ok (mk_env Ex.norec no_call no_join Ex.ctx0 Ex.q []) Ex.q Ex.passes Ex.t8 /\
-  rows_ok ["g"; "h"]%string (filter Ex.passes Ex.t8) = true /\
+  rows_ok [gcol "g"; gcol "h"]%string (filter Ex.passes Ex.t8) = true /\
   forallb simple_item (s_items Ex.q) = true /\
   List.length (filter Ex.passes Ex.t8) = 7%nat /\
   run_select Ex.norec no_call no_join Ex.ctx0 Ex.q (Some Ex.t8) =
@@ -430,3 +501,61 @@ Example C03_nonvacuous_whole_table_empty :
   run_select Ex.norec no_call no_join Ex.ctx0 Ex.q0 (Some Ex.t8) =
   Ok (VArr [VObj [("n", VNum 0); ("sa", VNull); ("sb", VNull)]])%string.
 Proof. vm_compute. reflexivity. Qed.
+
+(* ================================================================== *)
+(* 8. Non-vacuity for path keys: GROUP BY `owner.team`, `tags[0]`       *)
+(* ================================================================== *)
+
+Module ExP.
+  Local Open Scope string_scope.
+  Definition owner_team : gkey := ("owner.team", [KKey "owner"; KKey "team"]).
+  Definition tags0 : gkey := ("tags[0]", [KKey "tags"; KIdx 0]).
+  Definition tags1 : gkey := ("tags[1]", [KKey "tags"; KIdx 1]).
+  Definition row (id : Z) (owner tags : option value) : value :=
+    VObj ([("id", VNum (float_of_Z id))] ++ (match owner with Some v => [("owner", v)] | None => [] end)
+          ++ (match tags with Some v => [("tags", v)] | None => [] end)).
+  (* owner: object with team / NULL / missing / object without team; tags: arrays of 1-2, NULL, missing *)
+  Definition t6 : list value :=
+    [ row 1 (Some (VObj [("team", VStr "red")])) (Some (VArr [VStr "a"; VStr "b"]));
+      row 2 (Some (VObj [("team", VStr "blue")])) (Some (VArr [VStr "a"]));
+      row 3 (Some VNull) (Some VNull);
+      row 4 None None;
+      row 5 (Some (VObj [("team", VStr "red")])) (Some (VArr [VStr "c"; VStr "b"]));
+      row 6 (Some (VObj [("other", VNum 1)])) (Some (VArr [VNull; VStr "b"])) ].
+  Definition ids (g : list (string * value) * list value) := (fst g, map (column "id") (snd g)).
+  (* a row whose owner is a string; a row whose tags array is too short for [1] *)
+  Definition scalar_owner : value := row 7 (Some (VStr "nobody")) (Some (VArr [VStr "a"; VStr "b"])).
+  Definition q (c : gkey) : select stmt :=
+    {| s_with := []; s_from := FTable ["t"] ""; s_where := None; s_group := [c]; s_having := None;
+       s_items := [IExpr (EAgg ACount None) "n"]; s_distinct := false; s_order := []; s_limit := None;
+       s_offset := None |}.
+  Definition ctx (rows : list value) :=
+    {| c_data := [("t", VArr rows)]; c_ctes := []; c_busy := []; c_up := [] |}.
+End ExP.
+
+(* `owner.team`: red {1,5}, blue {2}, and ONE group for NULL owner, missing owner, owner without team {3,4,6};
+   `tags[0]`: a {1,2}, NULL {3,4,6} (NULL tags, missing tags, NULL element), c {5} *)
+Example C03_nonvacuous_path_groups :
+  rows_ok [ExP.owner_team] ExP.t6 = true /\ rows_ok [ExP.tags0] ExP.t6 = true /\
+  group_rows [ExP.owner_team] ExP.t6 [] = Ok (group_spec [ExP.owner_team] ExP.t6) /\
+  map ExP.ids (group_spec [ExP.owner_team] ExP.t6) =
+    [ ([("owner.team", VStr "red")], [VNum 1; VNum 5]); ([("owner.team", VStr "blue")], [VNum 2]);
+      ([("owner.team", VNull)], [VNum 3; VNum 4; VNum 6]) ]%string%float /\
+  map ExP.ids (group_spec [ExP.tags0] ExP.t6) =
+    [ ([("tags[0]", VStr "a")], [VNum 1; VNum 2]); ([("tags[0]", VNull)], [VNum 3; VNum 4; VNum 6]);
+      ([("tags[0]", VStr "c")], [VNum 5]) ]%string%float.
+Proof. vm_compute. repeat split. Qed.
+
+(* the premises of C03_unreadable_key_is_refused are met: `tags[1]` over t6 is stuck at row 2 (array of one),
+   `owner.team` over t6 followed by a row whose owner is a string is stuck there; the whole query fails *)
+Example C03_nonvacuous_refused :
+  rows_ok [ExP.tags1] (firstn 1 ExP.t6) = true /\
+  path_stuck (gk_path ExP.tags1) (nth 1 ExP.t6 VNull) = true /\
+  run_select Ex.norec no_call no_join (ExP.ctx ExP.t6) (ExP.q ExP.tags1) (Some ExP.t6) = Err /\
+  rows_ok [ExP.owner_team] ExP.t6 = true /\
+  path_stuck (gk_path ExP.owner_team) ExP.scalar_owner = true /\
+  run_select Ex.norec no_call no_join (ExP.ctx (ExP.t6 ++ [ExP.scalar_owner])) (ExP.q ExP.owner_team)
+    (Some (ExP.t6 ++ [ExP.scalar_owner])) = Err /\
+  run_select Ex.norec no_call no_join (ExP.ctx ExP.t6) (ExP.q ExP.owner_team) (Some ExP.t6) =
+    Ok (VArr [VObj [("n", VNum 2)]; VObj [("n", VNum 1)]; VObj [("n", VNum 3)]])%string%float.
+Proof. vm_compute. repeat split. Qed.
